@@ -211,10 +211,16 @@ def correct_accel(ctx, eqs, rng, N):
     R = O.mrp_to_R(x[:, :3])
     y = np.einsum("nji,nj->ni", R, np.stack([0 * g, 0 * g, -g], axis=1))
     # tilt error so the correction has something to do
-    terr = O.random_axes(rng, N) * O.loguniform(rng, 1e-4, 0.5, N)[:, None]
+    tmag = O.loguniform(rng, 1e-4, 0.5, N)
+    gross = rng.random(N) < 0.25
+    tmag[gross] = rng.uniform(0.5, PI, int(gross.sum()))  # gross innovations too: the estimate may be anywhere (up to 180 degrees off)
+    terr = O.random_axes(rng, N) * tmag[:, None]
     y = np.einsum("nij,nj->ni", O.rodrigues(terr), y)
     y = y + rng.normal(size=(N, 3)) * rng.choice([0.0, 0.035, 0.3], N)[:, None]
     scale = rng.choice([1.0, 1.0, 1.0, 0.0, 0.5, 2.0, (g[0] - 1.0000001) / g[0], (g[0] + 0.9999999) / g[0], (g[0] - 0.999) / g[0]], N)
+    # ... and magnitudes anywhere inside the acceptance gate | |y| - g | <= 1, not only at its centre and its edges
+    inside = rng.random(N) < 0.3
+    scale = np.where(inside, 1.0 + rng.uniform(-0.98, 0.98, N) / g, scale)
     y = y * scale[:, None]
     om = O.random_axes(rng, N) * O.loguniform(rng, 1e-3, 20, N)[:, None]
     sa, sao, bc = O.loguniform(rng, 1e-3, 0.1, N), rng.choice([0.0, 1e-3], N), np.full(N, 9.2)
